@@ -24,7 +24,7 @@ def _doc_tokens(node):
     doc = ast.get_docstring(node, clean=False)
     if doc is None:
         return ['0']
-    return ['1', doc, str(node.body[0].end_lineno)]
+    return ['1', doc, str(node.body[0].end_lineno), str(node.body[0].lineno)]
 
 
 def _deco_tokens(decos):
@@ -67,12 +67,18 @@ def _stmts(body, env, runs=True):
             op0 = is_cmp and isinstance(t.ops[0], ast.Eq)
             left = getattr(t.left, 'id', None) if is_cmp else None
             comp0 = getattr(t.comparators[0], 'value', None) if is_cmp else None
+            left_str = getattr(t.left, 'value', None) if is_cmp else None
+            comp0_id = getattr(t.comparators[0], 'id', None) if is_cmp else None
             if not isinstance(left, str):
                 left = None
             if not isinstance(comp0, str):
                 comp0 = None
+            if not isinstance(left_str, str):
+                left_str = None
+            if not isinstance(comp0_id, str):
+                comp0_id = None
             val = _eval_test(t, env)
-            out += ['I', '1' if is_cmp else '0', '1' if op0 else '0'] + _opt(left) + _opt(comp0)
+            out += ['I', '1' if is_cmp else '0', '1' if op0 else '0'] + _opt(left) + _opt(comp0) + _opt(left_str) + _opt(comp0_id)
             out += ['1' if val else '0', '0' if val else '1']
             out += _stmts(st.body, env) + ['E'] + _stmts(st.orelse, env) + ['E']
         elif isinstance(st, (ast.For, ast.AsyncFor)):
